@@ -58,17 +58,21 @@ func c07System() *explore.System {
 		txOp("Send(A->B,11umed)", s(A), banktypes.NewMsgSend(A.Addr, B.Addr, coins("11umed"))),
 		txOp("CreateTopic(A,a)", s(A), aoltypes.NewMsgCreateTopic("a", "", A.Bech)),
 	)
+	// the burn MODULE ACCOUNT's own address is a blocked address: a transfer straight to it must be refused (were it accepted
+	// before the first burn, an ordinary account would sit where x/burn expects its module account)
+	burnModule := authtypes.NewModuleAddress(burntypes.ModuleName)
+	ops = append(ops, txOp("Send(A->burn-module-account,5umed)", s(A), banktypes.NewMsgSend(A.Addr, burnModule, coins("5umed"))))
 	// another module's end blocker as the route: a governance proposal that pays the burn address out of the community
 	// pool, executed by gov's EndBlocker when its (one block long) voting period ends
 	govAddr := authtypes.NewModuleAddress(govtypes.ModuleName)
-	spend := &distrtypes.MsgCommunityPoolSpend{Authority: govAddr.String(), Recipient: burn.String(), Amount: coins("700umed")}
+	spend := &distrtypes.MsgCommunityPoolSpend{Authority: govAddr.String(), Recipient: burn.String(), Amount: coins("700umed,9uoff")}
 	prop, err := govv1.NewMsgSubmitProposal([]sdk.Msg{spend}, coins("10umed"), A.Bech, "", "pay the burn address", "community pool spend to the burn address")
 	if err != nil {
 		panic(err)
 	}
 	ops = append(ops,
-		txOp("FundCommunityPool(A,1000umed)", s(A), distrtypes.NewMsgFundCommunityPool(coins("1000umed"), A.Addr)),
-		txOp("SubmitProposal(CommunityPoolSpend->burn,700umed)", s(A), prop),
+		txOp("FundCommunityPool(A,1000umed+9uoff)", s(A), distrtypes.NewMsgFundCommunityPool(coins("1000umed,9uoff"), A.Addr)),
+		txOp("SubmitProposal(CommunityPoolSpend->burn,700umed+9uoff)", s(A), prop),
 		txOp("Vote(A,proposal1,yes)", s(A), govv1.NewMsgVote(A.Addr, 1, govv1.OptionYes, "")),
 	)
 	ops = append(ops, ctlOps("NB")...)
@@ -78,8 +82,14 @@ func c07System() *explore.System {
 		Ops:    ops,
 		Clone:  func(m any) any { return m },
 		Fresh: func() (*world.World, any) {
-			return world.New(world.Options{Accounts: []*world.Account{A, B}, ExtraCoins: sdk.NewCoins(sdk.NewCoin("ubig", big120.MulRaw(4))),
+			return world.New(world.Options{Accounts: []*world.Account{A, B}, ExtraCoins: sdk.NewCoins(sdk.NewCoin("ubig", big120.MulRaw(4)), sdk.NewInt64Coin("uoff", 1000)),
 				Mutate: func(gs map[string]json.RawMessage, cdc codec.Codec) {
+					// "uoff": a denomination whose transfers are disabled (bank send_enabled=false); it can still reach the burn
+					// address through module-to-account routes, and must be burned like any other
+					var bg banktypes.GenesisState
+					cdc.MustUnmarshalJSON(gs["bank"], &bg)
+					bg.SendEnabled = append(bg.SendEnabled, banktypes.SendEnabled{Denom: "uoff", Enabled: false})
+					gs["bank"] = cdc.MustMarshalJSON(&bg)
 					var g govv1.GenesisState
 					cdc.MustUnmarshalJSON(gs["gov"], &g)
 					vp := 5 * time.Second
@@ -190,7 +200,7 @@ func C07(t Tier) int {
 		return 2
 	}
 	dl := deadline(t, 150*time.Second, 15*time.Minute)
-	bounds := []explore.Bounds{{Depth: 4, V: 1, Deadline: dl}}
+	bounds := []explore.Bounds{{Depth: 3, V: 1, Deadline: dl}, {Depth: 4, V: 1, Deadline: dl}}
 	if t.Thorough {
 		bounds = []explore.Bounds{{Depth: 4, V: 1, Deadline: dl}, {Depth: 5, V: 1, Deadline: dl}, {Depth: 5, V: 2, Deadline: dl}, {Depth: 6, V: 2, Deadline: dl}}
 	}
